@@ -26,14 +26,16 @@ Proof. exact never_stale. Qed.
 Print Assumptions C18_never_stale.
 
 (* the delta CRL: present exactly when the base advertises a location, taken from the first
-   advertised location that answers; an advertised delta that cannot be obtained or parsed is an error *)
+   advertised location that answers; an advertised delta that cannot be obtained or parsed is an error.
+   dl srv u = what a download of u yields: the server's answer for an http URL, nothing (and no
+   request: dev u = []) for a URL of any other scheme *)
 Theorem C18_delta_exact : forall srv base,
   match fetch_delta srv base with
   | (DNone, ev) => advertised base = Some [] /\ ev = []
   | (DErr, ev) => advertised base = None \/
-                  exists us, advertised base = Some us /\ us <> [] /\ (forall v, In v us -> lookup srv v = None) /\ ev = map EDownload us
-  | (DSome d, ev) => exists l1 u l2, advertised base = Some (l1 ++ u :: l2) /\ (forall v, In v l1 -> lookup srv v = None) /\
-                                     lookup srv u = Some d /\ ev = map EDownload (l1 ++ [u])
+                  exists us, advertised base = Some us /\ us <> [] /\ (forall v, In v us -> dl srv v = None) /\ ev = flat_map dev us
+  | (DSome d, ev) => exists l1 u l2, advertised base = Some (l1 ++ u :: l2) /\ (forall v, In v l1 -> dl srv v = None) /\
+                                     dl srv u = Some d /\ ev = flat_map dev (l1 ++ [u])
   end.
 Proof. exact fetch_delta_exact. Qed.
 Print Assumptions C18_delta_exact.
@@ -63,7 +65,7 @@ Print Assumptions C18_set_fault_is_error.
 
 Theorem C18_miss_is_not_error : forall cfg w url base,
   fw_get_fault w = false -> (fw_set_fault w = false \/ fc_discard cfg = true \/ fc_cache cfg = false) ->
-  lookup (fw_cache w) url = None -> lookup (fw_server w) url = Some base ->
+  lookup (fw_cache w) url = None -> dl (fw_server w) url = Some base ->
   (forall ev, fetch_delta (fw_server w) base <> (DErr, ev)) ->
   exists b cache' ev, fetch cfg w url = (FOk b false, cache', ev) /\ fb_base b = base.
 Proof. exact miss_is_not_error. Qed.
@@ -80,3 +82,25 @@ Theorem C18_history_cache_origin : forall cfg ops w0 u b,
   In (u, b) (fw_cache (ffinal cfg w0 ops)) -> Origin cfg w0 ops u b.
 Proof. exact cache_origin. Qed.
 Print Assumptions C18_history_cache_origin.
+
+(* "freshly downloaded over plain HTTP": every request of a Fetch is for an http URL; the base and
+   the delta of a downloaded bundle were both served from http URLs; a URL of another scheme is an
+   error without any request, whatever is published there *)
+Theorem C18_plain_http_only : forall cfg w url r cache' ev,
+  fetch cfg w url = (r, cache', ev) -> forall u, In (EDownload u) ev -> plain_http u = true.
+Proof. exact plain_http_only. Qed.
+Print Assumptions C18_plain_http_only.
+
+Theorem C18_downloaded_over_http : forall w url b, Downloaded w url b ->
+  plain_http url = true /\ lookup (fw_server w) url = Some (fb_base b) /\
+  match fb_delta b with
+  | None => True
+  | Some d => exists u, plain_http u = true /\ lookup (fw_server w) u = Some d
+  end.
+Proof. exact downloaded_over_http. Qed.
+Print Assumptions C18_downloaded_over_http.
+
+Theorem C18_non_http_is_error : forall cfg w url pre, plain_http url = false ->
+  fetch_download cfg w url pre = (FErr, fw_cache w, pre).
+Proof. exact non_http_is_error. Qed.
+Print Assumptions C18_non_http_is_error.
